@@ -57,6 +57,8 @@ Section C05.
   Variable derive_sk : bytes -> Z -> Z -> option sk.
   Variable sign : sk -> bytes -> sig.
   Variable zfix : bool.
+  Variable sfix : bool.
+  Variable nfix : bool.
   Variable cfg : amcfg.
   Variable right : bytes.
   Variable acct : bytes.
@@ -64,11 +66,15 @@ Section C05.
   Variable sk_of : addr -> sk.
   Hypothesis laws : unlock_laws kdf digest shash open_box sk branch_ok derive_sk cfg right acct ent sk_of.
 
-  Local Notation reachable := (reachable kdf digest shash open_box sk sig branch_ok derive_sk sign zfix cfg).
-  Local Notation wreachable := (wreachable kdf digest shash open_box sk sig branch_ok derive_sk sign zfix cfg).
-  Local Notation step_out := (step_out kdf digest shash open_box sk sig branch_ok derive_sk sign zfix cfg).
-  Local Notation step_st := (step_st kdf digest shash open_box sk sig branch_ok derive_sk sign zfix cfg).
-  Local Notation step_uses := (step_uses kdf digest shash open_box sk sig branch_ok derive_sk sign zfix cfg).
+  (* the salted buffer of checkPassword freshly allocated (see C05_salt_unfixed_refuted) *)
+  Hypothesis Sfix : sfix = true.
+  Hypothesis Nfix : nfix = true.
+
+  Local Notation reachable := (reachable kdf digest shash open_box sk sig branch_ok derive_sk sign zfix sfix nfix cfg).
+  Local Notation wreachable := (wreachable kdf digest shash open_box sk sig branch_ok derive_sk sign zfix sfix nfix cfg).
+  Local Notation step_out := (step_out kdf digest shash open_box sk sig branch_ok derive_sk sign zfix sfix nfix cfg).
+  Local Notation step_st := (step_st kdf digest shash open_box sk sig branch_ok derive_sk sign zfix sfix nfix cfg).
+  Local Notation step_uses := (step_uses kdf digest shash open_box sk sig branch_ok derive_sk sign zfix sfix nfix cfg).
 
   (* the gate, in EVERY reachable state (any operations, any passphrases, before): an operation
      that needs a secret — sign, export, reveal mnemonic, the check guarding removal — succeeds
@@ -79,7 +85,7 @@ Section C05.
     (is_ok (step_out st o) = true <-> p = right) /\
     (p <> right -> step_out st o = OutErr EInvalidPassphrase).
   Proof.
-    exact (gate_fixed kdf digest shash open_box sk sig branch_ok derive_sk sign zfix cfg right acct ent sk_of laws).
+    exact (gate_fixed kdf digest shash open_box sk sig branch_ok derive_sk sign zfix sfix nfix cfg right acct ent sk_of laws Sfix Nfix).
   Qed.
 
   (* the same for the code as first found, restricted to the WalletManager's own calls other
@@ -89,7 +95,7 @@ Section C05.
     (is_ok (step_out st o) = true <-> p = right) /\
     (p <> right -> step_out st o = OutErr EInvalidPassphrase).
   Proof.
-    exact (wgate kdf digest shash open_box sk sig branch_ok derive_sk sign zfix cfg right acct ent sk_of laws).
+    exact (wgate kdf digest shash open_box sk sig branch_ok derive_sk sign zfix sfix nfix cfg right acct ent sk_of laws Sfix Nfix).
   Qed.
 
   (* the defect repaired by /repo commit 34102a8: as first found, after SignHash then
@@ -99,16 +105,16 @@ Section C05.
     zfix = false -> sign_ready cfg a h ->
     exists st, reachable st /\ step_out st (OMnemonic right) = OutErr EDecryptFailed.
   Proof.
-    exact (mnemonic_gate_refuted kdf digest shash open_box sk sig branch_ok derive_sk sign zfix cfg right acct ent sk_of laws).
+    exact (mnemonic_gate_refuted kdf digest shash open_box sk sig branch_ok derive_sk sign zfix sfix nfix cfg right acct ent sk_of laws Sfix Nfix).
   Qed.
 
   (* a refused attempt — whatever the error — neither unlocks nor alters anything: unlocked flag,
-     salted passphrase hash, cached branch keys and cached private keys are unchanged (the store is
+     salted passphrase hash, the salt, cached branch keys and cached private keys are unchanged (the store is
      not written by these operations at all); only the content of masterKeyPriv.Key may differ *)
   Theorem C05_refusal_frames : forall st o e,
     reachable st -> op_ready cfg o -> step_out st o = OutErr e -> same_but_mk sk st (step_st st o).
   Proof.
-    exact (refusal_frames kdf digest shash open_box sk sig branch_ok derive_sk sign zfix cfg right acct ent sk_of laws).
+    exact (refusal_frames kdf digest shash open_box sk sig branch_ok derive_sk sign zfix sfix nfix cfg right acct ent sk_of laws Sfix Nfix).
   Qed.
 
   (* ... and that content — possibly the WRONG key a failed scrypt check left there — is never
@@ -116,9 +122,81 @@ Section C05.
   Theorem C05_wrong_key_never_used : forall st o k,
     reachable st -> op_ready cfg o -> In k (step_uses st o) -> k = good kdf cfg right \/ k = zero32.
   Proof.
-    exact (wrong_key_never_used kdf digest shash open_box sk sig branch_ok derive_sk sign zfix cfg right acct ent sk_of laws).
+    exact (wrong_key_never_used kdf digest shash open_box sk sig branch_ok derive_sk sign zfix sfix nfix cfg right acct ent sk_of laws Sfix Nfix).
   Qed.
 End C05.
+
+(* Finding empty-passphrase-zeroes-salt (the code as found, [sfix] = false): after SignHash with
+   the right passphrase (manager unlocked) a refused attempt with the EMPTY passphrase zeroes the
+   manager's salt; then export and reveal with the right passphrase answer the passphrase error.
+   So both the frame of refusals and the gate fail for [sfix] = false. (Premises: the address is the
+   keystore's, the hash has 32 bytes, the passphrase is not empty, and the salted SHA-512 of the
+   passphrase differs for the zero salt and the manager's salt.) *)
+Section C05Salt.
+  Variable kdf : bytes -> bytes -> bytes.
+  Variable digest : bytes -> bytes.
+  Variable shash : bytes -> bytes.
+  Variable open_box : bytes -> bytes -> option bytes.
+  Variable sk : Type.
+  Variable sig : Type.
+  Variable branch_ok : bytes -> bool.
+  Variable derive_sk : bytes -> Z -> Z -> option sk.
+  Variable sign : sk -> bytes -> sig.
+  Variable zfix : bool.
+  Variable nfix : bool.
+  Variable cfg : amcfg.
+  Variable right : bytes.
+  Variable acct : bytes.
+  Variable ent : bytes.
+  Variable sk_of : addr -> sk.
+  Hypothesis laws : unlock_laws kdf digest shash open_box sk branch_ok derive_sk cfg right acct ent sk_of.
+
+  Theorem C05_salt_unfixed_refuted : forall a h,
+    sign_ready cfg a h -> right <> [] ->
+    shash (zero32 ++ right) <> shash (c_run_salt cfg ++ right) ->
+    exists st,
+      reachable kdf digest shash open_box sk sig branch_ok derive_sk sign zfix false nfix cfg st /\
+      s_unlocked st = true /\ s_salt st = zero32 /\
+      step_out kdf digest shash open_box sk sig branch_ok derive_sk sign zfix false nfix cfg st (OExport right)
+        = OutErr EInvalidPassphrase /\
+      step_out kdf digest shash open_box sk sig branch_ok derive_sk sign zfix false nfix cfg st (OMnemonic right)
+        = OutErr EInvalidPassphrase.
+  Proof.
+    exact (salt_defect_refuted kdf digest shash open_box sk sig branch_ok derive_sk sign zfix nfix cfg right acct ent sk_of laws).
+  Qed.
+End C05Salt.
+
+(* Finding passphrase-trailing-nul-equivalent (the code as first found, [nfix] = false; repaired by
+   /repo commit 30c1bd3): scrypt's HMAC zero-pads short keys, so the passphrase followed by a zero
+   byte derives the same key; a locked manager then accepts it — e.g. the check guarding
+   RemoveWallet, and export. (Premises: the stored digest is the digest of the passphrase's key,
+   and the key derivation collides on the NUL-extended passphrase as HMAC does.) *)
+Section C05Nul.
+  Variable kdf : bytes -> bytes -> bytes.
+  Variable digest : bytes -> bytes.
+  Variable shash : bytes -> bytes.
+  Variable open_box : bytes -> bytes -> option bytes.
+  Variable sk : Type.
+  Variable sig : Type.
+  Variable branch_ok : bytes -> bool.
+  Variable derive_sk : bytes -> Z -> Z -> option sk.
+  Variable sign : sk -> bytes -> sig.
+  Variable zfix sfix : bool.
+  Variable cfg : amcfg.
+  Variable right : bytes.
+
+  Theorem C05_nul_unfixed_refuted :
+    c_digest cfg = digest (kdf right (c_salt cfg)) ->
+    kdf (right ++ [0]) (c_salt cfg) = kdf right (c_salt cfg) ->
+    right ++ [0] <> right /\
+    step_out kdf digest shash open_box sk sig branch_ok derive_sk sign zfix sfix false cfg
+             (init_state cfg) (OCheck (right ++ [0])) = OutUnit /\
+    step_out kdf digest shash open_box sk sig branch_ok derive_sk sign zfix sfix false cfg
+             (init_state cfg) (OExport (right ++ [0])) = OutExport (export_of_cfg cfg).
+  Proof.
+    exact (nul_defect_refuted kdf digest shash open_box sk sig branch_ok derive_sk sign zfix sfix cfg right).
+  Qed.
+End C05Nul.
 
 Print Assumptions C05_no_plain_secret.
 Print Assumptions C05_no_plain_secret_live.
@@ -129,6 +207,8 @@ Print Assumptions C05_gate_wallet_level.
 Print Assumptions C05_gate_unfixed_refuted.
 Print Assumptions C05_refusal_frames.
 Print Assumptions C05_wrong_key_never_used.
+Print Assumptions C05_salt_unfixed_refuted.
+Print Assumptions C05_nul_unfixed_refuted.
 
 (* non-vacuity: the attacker holding the public passphrase does reach public material ... *)
 Example C05_public_material_derivable :
